@@ -156,3 +156,12 @@ Proof.
   cbn [bind]. destruct c; cbn [cond truthy bind and_then or_else rmap negb py_is_not py_is];
     destruct sh as [|s1 [|s2 [|s3 sh]]]; reflexivity.
 Qed.
+
+(* trailing-column form with the wrong number of columns *)
+Lemma column_form_wrong_features n c xs nf (cs : bool) : c <> nf ->
+  vtx (xmat n c xs) VNone (VInt nf) (VBool cs) = Err ValueError.
+Proof.
+  intros H. unfold vtx, py_validation_validate_time_x, py_validation_validate_array, xmat.
+  destruct cs; step; destruct (c =? nf - 1); step;
+    replace (c =? nf) with false by (symmetry; apply Z.eqb_neq; lia); reflexivity.
+Qed.
